@@ -9,10 +9,14 @@ Claimed narrowly. Decides: (a) the query handler rejects OFFSET without LIMIT be
 (d) per-flow row bounds use LIMIT+OFFSET: the raw LIMIT (QueryPlan::limit) bounds rows only in the reviewed places (StreamingContext::new and plan_with_rlte add the offset;
 MemTableSource::determine_limit, build_segment_stream and MemTableQuery use it only as the fallback behind the limit override that carries LIMIT+OFFSET; QueryExecution::run and build_segment_flow are the
 legacy non-streaming path) — a new use of the raw LIMIT as a truncation / take / comparison bound in a source or merger drops the rows behind the offset.
-Does NOT decide: correctness of top-k zone pre-selection (RLTE), slice positions, typed order of ScalarValue::compare (value level).
+(e) top-k zone pre-selection (RLTE planner) drops a zone when its upper bound `ub` of rows on the wanted side of the cut-off is 0, so `ub` must never under-estimate:
+e1) no `ub` returned by RlteCatalog::lb_ub_one_numeric / lb_ub_one_string derives from floating-point arithmetic (a fraction of ladder checkpoints times the zone size truncates to 0 for a zone that
+holds qualifying rows); e2) both variants bring the ladder into a known order before they walk it (the numeric one sorts; the ladder file is written descending) - a walk that assumes the opposite order
+yields ub = 0 for every zone whose first rank exceeds the cut-off.
+Does NOT decide: the remaining arithmetic of the RLTE planner (which min/max a partial ladder yields, zone sizes after compaction), slice positions, typed order of ScalarValue::compare (value level).
 """
-FLOOR = 4
-REQUIRED = ["C10.a", "C10.b", "C10.c", "C10.d"]
+FLOOR = 6
+REQUIRED = ["C10.a", "C10.b", "C10.c", "C10.d", "C10.e1", "C10.e2"]
 
 COPIES = ["engine::core::read::segment_query_runner::compare_scalar_values",
           "engine::core::read::flow::operators::memtable_source::compare_scalar_values",
@@ -165,3 +169,63 @@ def run(ctx):
                     bad.append(("raw-limit-bound:%s" % base, "%s bounds rows with the raw LIMIT (%s) instead of LIMIT+OFFSET: rows needed behind the offset are dropped at this stage" % (k, used), None))
         return bad
     ctx.run("C10.d", "K4 REACH + K7", "uses of the raw LIMIT", "rows behind the OFFSET are not cut off before the final slice", d)
+
+    RL = "engine::query::rlte_planner::RlteCatalog::"
+
+    def ub_operands(b):
+        """operands returned as the second component of the (lb, ub) tuple"""
+        out = []
+        for i in sorted(b.live_blocks()):
+            for st in b.blocks[i]["s"]:
+                v = st.get("v")
+                if st.get("a") == [0] and v and v.get("r") == "agg" and v.get("ak") == "tuple" and len(v["o"]) == 2:
+                    out.append((i, v["o"][1]))
+        return out
+
+    def e1(inst):
+        bad, n = [], 0
+        for fn in ("lb_ub_one_numeric", "lb_ub_one_string"):
+            b = F.fn_exact(RL + fn) if F.has(RL + fn) else F.fn("RlteCatalog::" + fn)
+            ups = ub_operands(b)
+            if not ups:
+                raise AnchorMissing("(lb, ub) returns of %s" % fn)
+            est = []
+            for i, op in ups:
+                n += 1
+                fl = [x for x in wide_all(b, op) if b.local_ty(x) in ("f64", "f32")]
+                if fl:
+                    est.append(sp(b, i))
+            inst.sites.append("%s: %d returns, estimated ub at %s" % (fn, len(ups), est or "-"))
+            if est:
+                bad.append(("estimated-upper-bound:%s" % fn, "%s returns an upper bound computed in floating point (a fraction of the ladder checkpoints times the zone size, truncated): a zone holding qualifying rows can get ub = 0 and is dropped by the `ub > 0` keep test of the top-k pre-selection" % fn, None))
+        # the keep test really is ub > 0 (otherwise e1 has nothing to protect)
+        keep = 0
+        for k in F.find(r"^engine::query::rlte_planner::greedy_cutoff_(numeric|string)::\{closure#\d+\}$"):
+            C = F.fn_exact(k)
+            for blk in C.blocks:
+                for st in blk["s"]:
+                    v = st.get("v")
+                    if v and v.get("r") == "bin" and v.get("op") == "Gt" and (v["b"].get("k") or "").startswith("0_"):
+                        keep += 1
+        inst.sites.append("keep tests `ub > 0`: %d" % keep)
+        if keep < 1:
+            raise AnchorMissing("the `ub > 0` keep filter of greedy_cutoff_*")
+        return bad
+    ctx.run("C10.e1", "K7 PROV", "RlteCatalog::lb_ub_one_{numeric,string}", "the bound that drops a zone from an ordered LIMIT query is never an estimate", e1)
+
+    def e2(inst):
+        bad = []
+        for fn in ("lb_ub_one_numeric", "lb_ub_one_string"):
+            b = F.fn_exact(RL + fn) if F.has(RL + fn) else F.fn("RlteCatalog::" + fn)
+            # direct or one call away (ladder_as_numbers)
+            names = {c_.nname for c_ in b.calls if not c_.cleanup}
+            for c_ in b.calls:
+                if not c_.cleanup and c_.local and F.has(c_.nname):
+                    names |= {x.nname for x in F.fn_exact(c_.nname).calls if not x.cleanup}
+            ordered = any(re.search(r"slice::sort(_unstable)?(_by|_by_key)?$|::is_sorted|slice::reverse$|Iterator::rev$", n_) for n_ in names)
+            walks = bool(for_headers(b)) or any(re.search(r"partition_point$|binary_search", n_) for n_ in names)
+            inst.sites.append("%s: orders the ladder=%s walks it=%s" % (fn, ordered, walks))
+            if walks and not ordered:
+                bad.append(("ladder-order-assumed:%s" % fn, "%s walks the ladder in stored order without sorting it (its numeric sibling sorts first): the file is written descending, so the ASC walk stops at the first rank and reports ub = 0 for every zone whose maximum exceeds the cut-off" % fn, None))
+        return bad
+    ctx.run("C10.e2", "K11 SIB", "RlteCatalog::lb_ub_one_{numeric,string}", "both ladder walks work on an ordered ladder", e2)
